@@ -440,3 +440,38 @@ def conditional_values(ff: FuncFacts, var: str) -> List[Tuple[FrozenSet[Atom], a
                 else:
                     out.append((base, v))
     return out
+
+
+def dominating_conditions(ff: FuncFacts, node: Node, possible: bool = False) -> Set[Atom]:
+    """Atoms of every branch condition that control must have taken to reach ``node`` (whether or not a later statement
+    invalidated them): the *lexical guard* of the node, as opposed to the facts still known at it."""
+    cfg = ff.cfg
+    dom = cfg.dominators()
+    out: Set[Atom] = set()
+    byid = {n.id: n for n in cfg.nodes}
+    for did in dom.get(node.id, set()):
+        t = byid.get(did)
+        if t is None or t.kind != 'test' or t is node:
+            continue
+        reach = {}
+        for lbl in ('true', 'false'):
+            starts = [s for s, l in t.succ if l == lbl]
+            reach[lbl] = node.id in cfg.reachable(starts, include_src=True, avoid=lambda m: m is t)
+        if reach['true'] and not reach['false']:
+            out |= _possible_atoms(ff, t.ast.test, True) if possible else ff.cond_atoms(t.ast.test, True)
+        elif reach['false'] and not reach['true']:
+            out |= _possible_atoms(ff, t.ast.test, False) if possible else ff.cond_atoms(t.ast.test, False)
+    return out
+
+
+def _possible_atoms(ff: FuncFacts, e: ast.expr, truth: bool) -> Set[Atom]:
+    """Like cond_atoms, but a disjunction contributes the atoms of EVERY alternative (what may have been the reason)."""
+    e2 = ff.canon.expr(e)
+    if isinstance(e2, ast.UnaryOp) and isinstance(e2.op, ast.Not):
+        return _possible_atoms(ff, e2.operand, not truth)
+    if isinstance(e2, ast.BoolOp):
+        out: Set[Atom] = set()
+        for v in e2.values:
+            out |= _possible_atoms(ff, v, truth)
+        return out
+    return ff.cond_atoms(e2, truth)
